@@ -356,7 +356,25 @@ def run(ctx):
 
     # ------------------------------------------------------------------ (3) poll timeout
     rv, sfields, sfn = sm.responder_versions(W)
-    pd = sfields.get("poll_duration")
+    pe = ctx.fn(sm.PROCESS)
+    pev = W.ev(pe.path)
+    polls = [bb for bb, t in pe.calls() if strip_generics(t["fn"].get("path", "")).endswith("Poll::poll")]
+    # the timeout handed to poll(): a Server field holding Some(d), or Some(<Server field holding d>), or a constant
+    selfp = ("param", pe.path, 1)
+    tfield = None
+    pd = None
+    if len(polls) == 1:
+        a2 = pev.call_args(polls[0])[2]
+        if isinstance(a2, tuple) and a2[:2] == ("field", selfp):
+            tfield = a2[2]
+            pd = sfields.get(tfield)
+        elif isinstance(a2, tuple) and a2 and a2[0] == "agg" and str(a2[1]).endswith("Option::Some") and len(a2[2]) == 1:
+            inner = a2[2][0]
+            if isinstance(inner, tuple) and inner[:2] == ("field", selfp):
+                tfield = inner[2]
+                pd = ("agg", a2[1], (sfields.get(tfield),)) if sfields.get(tfield) is not None else None
+            else:
+                pd = a2
     okp = False
     det = fmt(pd)
     if pd is not None and pd[0] == "agg" and str(pd[1]).endswith("Option::Some"):
@@ -367,12 +385,9 @@ def run(ctx):
             okp = 0 < ms <= 1000
             det = "%s ms" % ms
     ctx.check("poll-timeout", "Some-constant-at-most-1s", okp, "poll timeout = Some(%s)" % det, "poll timeout is %s: an idle worker would not notice the flag" % det, ctx.loc(sfn))
-    pe = ctx.fn(sm.PROCESS)
-    pev = W.ev(pe.path)
-    polls = [bb for bb, t in pe.calls() if strip_generics(t["fn"].get("path", "")).endswith("Poll::poll")]
-    okpp = len(polls) == 1 and pev.call_args(polls[0])[2] == ("field", ("param", pe.path, 1), "poll_duration")
-    writers = [f.path for f in P.fns.values() for bl in f.blocks for st in bl.stmts if st["k"] == "assign" and any(isinstance(e, dict) and e.get("name") == "poll_duration" and e.get("adt") == sm.SERVER for e in st["dst"].get("p", []))]
-    ctx.check("poll-timeout", "poll-uses-that-timeout", okpp and not writers, "poll(events, self.poll_duration) with the value set in Server::new", "poll timeout is not the constructor's constant (writers: %s)" % writers, ctx.loc(pe))
+    okpp = len(polls) == 1 and pd is not None
+    writers = [] if tfield is None else [f.path for f in P.fns.values() for bl in f.blocks for st in bl.stmts if st["k"] == "assign" and any(isinstance(e, dict) and e.get("name") == tfield and e.get("adt") == sm.SERVER for e in st["dst"].get("p", []))]
+    ctx.check("poll-timeout", "poll-uses-that-timeout", okpp and not writers, "poll(events, <timeout set in Server::new>) and the field is never reassigned", "poll timeout is not the constructor's constant (writers: %s)" % writers, ctx.loc(pe))
 
     # ------------------------------------------------------------------ (4) reporter iteration
     rl = ctx.fn("roughenough::stats::reporter::Reporter::processing_loop")
@@ -397,7 +412,9 @@ def run(ctx):
     ctx.check("exit-status", "exit-0-after-joins", ok5, "after joining every thread main calls process::exit(0)", "exit paths after the spawn loop: %s" % [(main.loc(bb), fmt(a)) for bb, a in after], ctx.loc(main))
     # every spawned handle is joined
     # (a handle may come out of a helper that was inlined here, through `?` / Option: the spawn then reaches the push or extend without dominating it)
-    pushes = [bb for bb, t in main.calls() if callee_name(t["fn"].get("path", "")) in ("push", "extend") and "JoinHandle" in (t.get("arg_tys") or [""])[0]
+    # (the handle may be kept in a small record together with the thread's name)
+    carriers = ["JoinHandle"] + [a for a, d in P.adts.items() if d.get("variants") and any("JoinHandle" in x.get("ty", "") for v in d["variants"] for x in v.get("fields", []))]
+    pushes = [bb for bb, t in main.calls() if callee_name(t["fn"].get("path", "")) in ("push", "extend") and any(c in (t.get("arg_tys") or [""])[0] for c in carriers)
               and any(s != bb and main.reaches(s, bb) for s in spawns)]
     # handles produced by an iterator chain are collected into the vector directly
     collected = [s_ for s_ in spawns if callee_name(main.blocks[s_].term["fn"].get("path", "")) in ("map", "collect", "extend", "for_each")]
